@@ -2,17 +2,25 @@
 //!
 //! Requests
 //!   `TUMBLE <ts> <size> <off>`                      answer: `W <start> <end>` | `PANIC`
-//!   `WGROUP <op> <size> <off> <mode> <src> <rows>`  answer: `OK <rows>` | `PANIC`
+//!   `TUMBLE-WRAP <ts> <size> <off>`                 the CURRENT src/window.rs compiled with release arithmetic
+//!                                                   (crate `relwin`: wrapping, no debug assertions)   ↔ Lean `tumbleWrapping`
+//!   `TUMBLE-LEGACY <ts> <size> <off>`               the PRE-FIX src/window.rs (from git history), overflow-checking
+//!                                                   (crate `chkwin`)                                  ↔ Lean `Legacy.tumble`
+//!   `TUMBLE-LEGACY-WRAP <ts> <size> <off>`          the pre-fix source with release arithmetic        ↔ Lean `Legacy.tumbleWrapping`
+//!   `WGROUP <op> <size> <off> <mode> <src> <rows>`  answer: `OK <rows>` | `PANIC` | `ERR collect` (collect returned Err)
 //!       op   : kbw  (unkeyed key_by_window)         rows in : `ts:val,…`            out: `start-end:val,…` (input order)
-//!              gbw  (group_by_window)               rows in : `ts:val,…`            out: `start-end:v.v.v,…` (groups and contents sorted)
+//!              gbw  (group_by_window)               rows in : `ts:val,…`            out: `start-end:v.v.v,…` (groups sorted by window;
+//!                                                                                        group CONTENTS in the order the code produced)
 //!              kkbw (keyed key_by_window)           rows in : `key:ts:val,…`        out: `key@start-end:val,…` (input order)
-//!              gbkw (group_by_key_and_window)       rows in : `key:ts:val,…`        out: `key@start-end:v.v,…` (sorted)
-//!       mode : `seq` | `par:<threads>:<partitions>`
+//!              gbkw (group_by_key_and_window)       rows in : `key:ts:val,…`        out: `key@start-end:v.v,…` (groups sorted, contents as produced)
+//!       mode : `seq` | `par:<threads>:<partitions>` (`Some(partitions)`, 0 included) |
+//!              `par:<threads>:none:<eff>` (`partitions = None`; `<eff>` = what `Runner::run_collect` resolves it to on
+//!              this machine: the planner's suggestion, read from the real `build_plan`)
 //!       src  : how the timestamped collection is built (helpers/timestamped.rs): `d` from_vec of Timestamped,
 //!              `t` from_vec of (ts,val) + to_timestamped(), `a` from_vec of (ts,val) + attach_timestamps(|r| r.0)
 //!              (keyed ops: always `d`)
 //!       empty row list = `-`
-//!   `WCMP <s1> <e1> <s2> <e2>`                      answer: `<a==b T|F> <cmp LT|EQ|GT> <a==b → same hash T|F>`
+//!   `WCMP <s1> <e1> <s2> <e2>`                      answer: `<a==b T|F> <cmp LT|EQ|GT> <a==b → same hash T|F> <partial_cmp LT|EQ|GT|NONE>`
 //! The real side runs the REAL `Window::tumble` / REAL pipelines (from_vec → helpers → collect_seq /
 //! collect_par) in this overflow-checking build under catch_unwind (panic ↔ model `none`).
 //! Oracles (independent of the model, i128 reference arithmetic):
@@ -20,10 +28,14 @@
 //!           when a window with those properties is representable in u64 (size ≥ 1).
 //!   WGROUP: every row keeps its value and gets a window with the four properties; groups have distinct
 //!           keys, every group holds exactly the multiset of input values whose ts lies in the group's window
-//!           (and whose key is the group's key), counts add up to the input length; par result == seq result.
+//!           (and whose key is the group's key), counts add up to the input length; par result == seq result
+//!           (as sets of groups with multiset contents — the order inside a group is not part of the property; it
+//!           IS part of the model correspondence, which validates the "in input order" clause of the Lean theorems).
+//!   TUMBLE-WRAP: where a representable window exists the release build must return exactly it.
+//!   TUMBLE-LEGACY*: no oracle (the defective pinned code; these lines only validate the `Legacy.*` Lean models).
 
 use crate::ctx::{Ctx, guarded};
-use ironbeam::{Pipeline, Timestamped, Window, from_vec};
+use ironbeam::{Pipeline, Runner, Timestamped, Window, from_vec};
 use std::collections::BTreeMap;
 
 type Row = (u64, i64); // (ts, value)
@@ -82,6 +94,57 @@ fn one_tumble(cx: &mut Ctx, ts: u64, size: u64, off: u64, tag: &str) {
     }
 }
 
+// ---------------------------------------------------------------- the same source under other arithmetic profiles
+
+fn wstr<W>(r: &Result<W, String>, f: impl Fn(&W) -> (u64, u64)) -> String {
+    match r { Ok(w) => { let (s, e) = f(w); format!("W {s} {e}") } Err(_) => "PANIC".to_string() }
+}
+
+/// `TUMBLE-WRAP` (+ `TUMBLE-LEGACY`, `TUMBLE-LEGACY-WRAP` when the pre-fix source is available)
+fn one_tumble_variants(cx: &mut Ctx, ts: u64, size: u64, off: u64) {
+    if !(relwin::CURRENT_AVAILABLE && chkwin::CURRENT_AVAILABLE) {
+        cx.count("window-source-copy:unavailable(not standalone)");
+        return;
+    }
+    // integrity of the textual copy: compiled with the same (checking) profile it must behave like the linked crate
+    let linked = wstr(&guarded(|| Window::tumble(ts, size, off)), |w| (w.start, w.end));
+    let copy = wstr(&guarded(|| chkwin::current::Window::tumble(ts, size, off)), |w| (w.start, w.end));
+    // release arithmetic, current source
+    let r = guarded(|| relwin::current::Window::tumble(ts, size, off));
+    let ans = wstr(&r, |w| (w.start, w.end));
+    let i = cx.case(format!("TUMBLE-WRAP {ts} {size} {off}"), ans.clone(), size >= 1);
+    if linked != copy {
+        cx.oracle_fail(i, "window-source-copy-differs-from-linked-crate", format!("tumble({ts},{size},{off}): linked {linked}, copy of src/window.rs {copy}"));
+    }
+    match (ref_window(ts, size, off), &r) {
+        (Some((s, e)), Ok(w)) => {
+            cx.count("wrap:representable");
+            if (w.start, w.end) != (s, e) {
+                cx.oracle_fail(i, "tumble-release-window-wrong", format!("release build: tumble({ts},{size},{off}) = [{},{}) but the window is [{s},{e})", w.start, w.end));
+            }
+        }
+        (Some((s, e)), Err(m)) => {
+            cx.count("wrap:representable");
+            cx.oracle_fail(i, "tumble-release-panics-though-window-representable", format!("release build: tumble({ts},{size},{off}) panicked ({m}) although [{s},{e}) is the window"));
+        }
+        (None, Ok(_)) => cx.count("wrap:none-domain:garbage-window"),
+        (None, Err(_)) => cx.count("wrap:none-domain:panic"),
+    }
+    if relwin::LEGACY_AVAILABLE && chkwin::LEGACY_AVAILABLE {
+        let r = guarded(|| chkwin::legacy::Window::tumble(ts, size, off));
+        cx.case(format!("TUMBLE-LEGACY {ts} {size} {off}"), wstr(&r, |w| (w.start, w.end)), size >= 1 && r.is_ok());
+        cx.count(if r.is_ok() { "legacy:window" } else if ref_window(ts, size, off).is_some() { "legacy:panic-though-representable" } else { "legacy:panic" });
+        let r = guarded(|| relwin::legacy::Window::tumble(ts, size, off));
+        let a = wstr(&r, |w| (w.start, w.end));
+        cx.case(format!("TUMBLE-LEGACY-WRAP {ts} {size} {off}"), a.clone(), size >= 1);
+        if let (Some((s, e)), Ok(w)) = (ref_window(ts, size, off), &r) {
+            if (w.start, w.end) != (s, e) { cx.count("legacy-wrap:garbage-though-representable"); }
+        }
+    } else {
+        cx.count("legacy-source:unavailable");
+    }
+}
+
 // ---------------------------------------------------------------- WCMP (Eq / Ord / Hash of Window)
 
 fn one_wcmp(cx: &mut Ctx, a: (u64, u64), b: (u64, u64)) {
@@ -94,7 +157,8 @@ fn one_wcmp(cx: &mut Ctx, a: (u64, u64), b: (u64, u64)) {
     let (eq, c, pc, heq, rc) = match r { Ok(x) => x, Err(_) => { cx.case(format!("WCMP {} {} {} {}", a.0, a.1, b.0, b.1), "PANIC".into(), false); return; } };
     let cs = match c { std::cmp::Ordering::Less => "LT", std::cmp::Ordering::Equal => "EQ", std::cmp::Ordering::Greater => "GT" };
     let t = |x: bool| if x { "T" } else { "F" };
-    let i = cx.case(format!("WCMP {} {} {} {}", a.0, a.1, b.0, b.1), format!("{} {} {}", t(eq), cs, t(!eq || heq)), a != b);
+    let pcs = match pc { Some(std::cmp::Ordering::Less) => "LT", Some(std::cmp::Ordering::Equal) => "EQ", Some(std::cmp::Ordering::Greater) => "GT", None => "NONE" };
+    let i = cx.case(format!("WCMP {} {} {} {}", a.0, a.1, b.0, b.1), format!("{} {} {} {pcs}", t(eq), cs, t(!eq || heq)), a != b);
     cx.count(&format!("wcmp:{cs}"));
     if eq != (a == b) { cx.oracle_fail(i, "window-eq-not-fieldwise", format!("{a:?} == {b:?} is {eq}")); }
     if c != a.cmp(&b) || pc != Some(c) || rc != c.reverse() { cx.oracle_fail(i, "window-ord-not-lexicographic", format!("{a:?} cmp {b:?} = {c:?}, partial {pc:?}, reverse {rc:?}")); }
@@ -104,9 +168,33 @@ fn one_wcmp(cx: &mut Ctx, a: (u64, u64), b: (u64, u64)) {
 // ---------------------------------------------------------------- WGROUP
 
 #[derive(Clone, Copy, PartialEq, Eq, Debug)]
-enum Mode { Seq, Par(usize, usize) }
+enum Mode { Seq, Par(usize, Option<usize>) }
 impl Mode {
-    fn enc(&self) -> String { match self { Mode::Seq => "seq".into(), Mode::Par(t, p) => format!("par:{t}:{p}") } }
+    /// `eff` = the partition count `run_collect` resolves `None` to for this input
+    fn enc(&self, eff: usize) -> String {
+        match self { Mode::Seq => "seq".into(), Mode::Par(t, Some(p)) => format!("par:{t}:{p}"), Mode::Par(t, None) => format!("par:{t}:none:{eff}") }
+    }
+}
+
+/// what `Runner::run_collect` turns `partitions = None` into for a `from_vec` source of these rows:
+/// `partitions.or(plan.suggested_partitions).unwrap_or(runner.default_partitions)`, read from the real planner
+fn effective_default_partitions(rows: &[Row]) -> usize {
+    let p = Pipeline::default();
+    let _c = from_vec(&p, rows.to_vec()).to_timestamped().group_by_window(1, 0);
+    let (nodes, edges) = p.snapshot();
+    let terminal = nodes.keys().copied().find(|id| !edges.iter().any(|(from, _)| from == id)).expect("terminal node");
+    let plan = ironbeam::planner::build_plan(&p, terminal).expect("plan");
+    plan.suggested_partitions.unwrap_or(Runner::default().default_partitions)
+}
+
+/// outcome of a real pipeline run: value, `Err` returned by collect, or panic
+enum Out<T> { Ok(T), Err(String), Panic(String) }
+impl<T> Out<T> {
+    fn from(r: Result<Result<T, String>, String>) -> Self {
+        match r { Ok(Ok(v)) => Out::Ok(v), Ok(Err(e)) => Out::Err(e), Err(p) => Out::Panic(p) }
+    }
+    fn is_ok(&self) -> bool { matches!(self, Out::Ok(_)) }
+    fn tag(&self) -> &'static str { match self { Out::Ok(_) => "ok", Out::Err(_) => "err", Out::Panic(_) => "panic" } }
 }
 
 fn enc_rows(rows: &[Row]) -> String {
@@ -148,15 +236,15 @@ impl Src { fn enc(&self) -> &'static str { match self { Src::D => "d", Src::T =>
 
 macro_rules! collect_mode {
     ($c:expr, $mode:expr) => {
-        match $mode { Mode::Seq => $c.collect_seq(), Mode::Par(t, n) => $c.collect_par(Some(t), Some(n)) }.expect("collect")
+        match $mode { Mode::Seq => $c.collect_seq(), Mode::Par(t, n) => $c.collect_par(Some(t), n) }.map_err(|e| format!("{e:#}"))?
     };
 }
 
-fn real_kbw(pools: &mut Pools, rows: &[Row], size: u64, off: u64, mode: Mode, src: Src) -> Result<Vec<WRow>, String> {
+fn real_kbw(pools: &mut Pools, rows: &[Row], size: u64, off: u64, mode: Mode, src: Src) -> Out<Vec<WRow>> {
     let rows = rows.to_vec();
-    in_mode(pools, mode, move || {
+    Out::from(in_mode(pools, mode, move || -> Result<Vec<WRow>, String> {
         let p = Pipeline::default();
-        match src {
+        Ok(match src {
             Src::D => {
                 let data: Vec<Timestamped<i64>> = rows.iter().map(|(t, v)| Timestamped::new(*t, *v)).collect();
                 collect_mode!(from_vec(&p, data).key_by_window(size, off), mode).into_iter().map(|(w, v)| ((w.start, w.end), v)).collect()
@@ -165,14 +253,14 @@ fn real_kbw(pools: &mut Pools, rows: &[Row], size: u64, off: u64, mode: Mode, sr
                 .into_iter().map(|(w, v)| ((w.start, w.end), v)).collect(),
             Src::A => collect_mode!(from_vec(&p, rows).attach_timestamps(|r: &Row| r.0).key_by_window(size, off), mode)
                 .into_iter().map(|(w, v)| ((w.start, w.end), v.1)).collect(),
-        }
-    })
+        })
+    }))
 }
-fn real_gbw(pools: &mut Pools, rows: &[Row], size: u64, off: u64, mode: Mode, src: Src) -> Result<Vec<WGroup>, String> {
+fn real_gbw(pools: &mut Pools, rows: &[Row], size: u64, off: u64, mode: Mode, src: Src) -> Out<Vec<WGroup>> {
     let rows = rows.to_vec();
-    in_mode(pools, mode, move || {
+    Out::from(in_mode(pools, mode, move || -> Result<Vec<WGroup>, String> {
         let p = Pipeline::default();
-        match src {
+        Ok(match src {
             Src::D => {
                 let data: Vec<Timestamped<i64>> = rows.iter().map(|(t, v)| Timestamped::new(*t, *v)).collect();
                 collect_mode!(from_vec(&p, data).group_by_window(size, off), mode).into_iter().map(|(w, vs)| ((w.start, w.end), vs)).collect()
@@ -181,26 +269,22 @@ fn real_gbw(pools: &mut Pools, rows: &[Row], size: u64, off: u64, mode: Mode, sr
                 .into_iter().map(|(w, vs)| ((w.start, w.end), vs)).collect(),
             Src::A => collect_mode!(from_vec(&p, rows).attach_timestamps(|r: &Row| r.0).group_by_window(size, off), mode)
                 .into_iter().map(|(w, vs)| ((w.start, w.end), vs.into_iter().map(|r| r.1).collect())).collect(),
-        }
-    })
+        })
+    }))
 }
-fn real_kkbw(pools: &mut Pools, rows: &[KRow], size: u64, off: u64, mode: Mode) -> Result<Vec<KWRow>, String> {
+fn real_kkbw(pools: &mut Pools, rows: &[KRow], size: u64, off: u64, mode: Mode) -> Out<Vec<KWRow>> {
     let data: Vec<(i64, Timestamped<i64>)> = rows.iter().map(|(k, t, v)| (*k, Timestamped::new(*t, *v))).collect();
-    in_mode(pools, mode, move || {
+    Out::from(in_mode(pools, mode, move || -> Result<Vec<KWRow>, String> {
         let p = Pipeline::default();
-        let c = from_vec(&p, data).key_by_window(size, off);
-        let out = match mode { Mode::Seq => c.collect_seq(), Mode::Par(t, n) => c.collect_par(Some(t), Some(n)) };
-        out.expect("collect").into_iter().map(|((k, w), v)| ((k, (w.start, w.end)), v)).collect()
-    })
+        Ok(collect_mode!(from_vec(&p, data).key_by_window(size, off), mode).into_iter().map(|((k, w), v)| ((k, (w.start, w.end)), v)).collect())
+    }))
 }
-fn real_gbkw(pools: &mut Pools, rows: &[KRow], size: u64, off: u64, mode: Mode) -> Result<Vec<KWGroup>, String> {
+fn real_gbkw(pools: &mut Pools, rows: &[KRow], size: u64, off: u64, mode: Mode) -> Out<Vec<KWGroup>> {
     let data: Vec<(i64, Timestamped<i64>)> = rows.iter().map(|(k, t, v)| (*k, Timestamped::new(*t, *v))).collect();
-    in_mode(pools, mode, move || {
+    Out::from(in_mode(pools, mode, move || -> Result<Vec<KWGroup>, String> {
         let p = Pipeline::default();
-        let c = from_vec(&p, data).group_by_key_and_window(size, off);
-        let out = match mode { Mode::Seq => c.collect_seq(), Mode::Par(t, n) => c.collect_par(Some(t), Some(n)) };
-        out.expect("collect").into_iter().map(|((k, w), vs)| ((k, (w.start, w.end)), vs)).collect()
-    })
+        Ok(collect_mode!(from_vec(&p, data).group_by_key_and_window(size, off), mode).into_iter().map(|((k, w), vs)| ((k, (w.start, w.end)), vs)).collect())
+    }))
 }
 
 fn all_representable(ts: impl Iterator<Item = u64>, size: u64, off: u64) -> bool {
@@ -210,196 +294,211 @@ fn all_representable(ts: impl Iterator<Item = u64>, size: u64, off: u64) -> bool
 
 fn sorted(mut v: Vec<i64>) -> Vec<i64> { v.sort(); v }
 
-/// unkeyed: key_by_window + group_by_window in `mode`; returns the canonical grouped answer
-fn one_unkeyed(cx: &mut Ctx, pools: &mut Pools, rows: &[Row], size: u64, off: u64, mode: Mode, src: Src, seq_ref: Option<&str>) -> String {
+/// answer string of a run that did not return rows
+fn fail_ans<T>(o: &Out<T>) -> String { match o { Out::Err(_) => "ERR collect".into(), _ => "PANIC".into() } }
+
+/// a run failed (`Err` or panic): that is a violation when every event has a representable window
+fn fail_oracle<T>(cx: &mut Ctx, i: usize, op: &str, o: &Out<T>, repr: bool, size: u64) {
+    match o {
+        Out::Ok(_) => {}
+        Out::Err(m) => {
+            // (an Err on the excluded domain is not judged by the oracle; the model answers PANIC there, so the
+            // correspondence reports it as a disagreement)
+            if repr && size >= 1 { cx.oracle_fail(i, &format!("{op}-errs-though-windows-representable"), m.clone()); }
+        }
+        Out::Panic(m) => if repr && size >= 1 {
+            cx.oracle_fail(i, &format!("{op}-panics-though-windows-representable"), m.clone());
+        },
+    }
+}
+
+/// unkeyed: key_by_window + group_by_window in `mode`; returns the order-insensitive canonical grouped
+/// answer (used only by the seq-vs-par oracle)
+fn one_unkeyed(cx: &mut Ctx, pools: &mut Pools, rows: &[Row], size: u64, off: u64, mode: Mode, eff: usize, src: Src, seq_ref: Option<&str>) -> String {
     let repr = all_representable(rows.iter().map(|r| r.0), size, off);
     // ---- key_by_window
     let r = real_kbw(pools, rows, size, off, mode, src);
     let ans = match &r {
-        Ok(out) => format!("OK {}", join_or_dash(out.iter().map(|((s, e), v)| format!("{s}-{e}:{v}")).collect())),
-        Err(_) => "PANIC".into(),
+        Out::Ok(out) => format!("OK {}", join_or_dash(out.iter().map(|((s, e), v)| format!("{s}-{e}:{v}")).collect())),
+        o => fail_ans(o),
     };
-    let i = cx.case(format!("WGROUP kbw {size} {off} {} {} {}", mode.enc(), src.enc(), enc_rows(rows)), ans, rows.len() >= 2 && r.is_ok());
-    cx.count(if r.is_ok() { "wgroup:kbw:ok" } else { "wgroup:kbw:panic" });
-    match &r {
-        Ok(out) => {
-            if out.len() != rows.len() {
-                cx.oracle_fail(i, "kbw-row-count", format!("{} rows in, {} out", rows.len(), out.len()));
-            } else {
-                for (j, ((w, v), (t, v0))) in out.iter().zip(rows.iter()).enumerate() {
-                    if v != v0 {
-                        cx.oracle_fail(i, "kbw-value-changed", format!("row {j}: value {v0} became {v}"));
-                        break;
-                    }
-                    if let Err(why) = window_ok(*w, *t, size, off) {
-                        cx.oracle_fail(i, &format!("kbw-window-wrong:{why}"), format!("row {j}: ts {t} got [{},{})", w.0, w.1));
-                        break;
-                    }
+    let i = cx.case(format!("WGROUP kbw {size} {off} {} {} {}", mode.enc(eff), src.enc(), enc_rows(rows)), ans, rows.len() >= 2 && r.is_ok());
+    cx.count(&format!("wgroup:kbw:{}", r.tag()));
+    fail_oracle(cx, i, "kbw", &r, repr, size);
+    if let Out::Ok(out) = &r {
+        if out.len() != rows.len() {
+            cx.oracle_fail(i, "kbw-row-count", format!("{} rows in, {} out", rows.len(), out.len()));
+        } else {
+            for (j, ((w, v), (t, v0))) in out.iter().zip(rows.iter()).enumerate() {
+                if v != v0 {
+                    cx.oracle_fail(i, "kbw-value-changed", format!("row {j}: value {v0} became {v}"));
+                    break;
+                }
+                if let Err(why) = window_ok(*w, *t, size, off) {
+                    cx.oracle_fail(i, &format!("kbw-window-wrong:{why}"), format!("row {j}: ts {t} got [{},{})", w.0, w.1));
+                    break;
                 }
             }
         }
-        Err(m) => if repr && size >= 1 {
-            cx.oracle_fail(i, "kbw-panics-though-windows-representable", m.clone());
-        },
     }
     // ---- group_by_window
     let r = real_gbw(pools, rows, size, off, mode, src);
     cx.count(&format!("wgroup:src={}", src.enc()));
-    let ans = match &r {
-        Ok(out) => {
-            let mut g: Vec<WGroup> = out.iter().map(|(w, vs)| (*w, sorted(vs.clone()))).collect();
-            g.sort();
-            format!("OK {}", join_or_dash(g.iter().map(|((s, e), vs)| format!("{s}-{e}:{}", dots(vs))).collect()))
+    // correspondence answer: groups sorted by window, contents exactly as produced; canonical: contents sorted too
+    let (ans, canon) = match &r {
+        Out::Ok(out) => {
+            let mut g: Vec<WGroup> = out.clone();
+            g.sort_by_key(|x| x.0);
+            let a = format!("OK {}", join_or_dash(g.iter().map(|((s, e), vs)| format!("{s}-{e}:{}", dots(vs))).collect()));
+            let mut c: Vec<WGroup> = out.iter().map(|(w, vs)| (*w, sorted(vs.clone()))).collect();
+            c.sort();
+            (a, format!("OK {}", join_or_dash(c.iter().map(|((s, e), vs)| format!("{s}-{e}:{}", dots(vs))).collect())))
         }
-        Err(_) => "PANIC".into(),
+        o => (fail_ans(o), fail_ans(o)),
     };
-    let i = cx.case(format!("WGROUP gbw {size} {off} {} {} {}", mode.enc(), src.enc(), enc_rows(rows)), ans.clone(), rows.len() >= 2 && r.is_ok());
-    cx.count(if r.is_ok() { "wgroup:gbw:ok" } else { "wgroup:gbw:panic" });
-    match &r {
-        Ok(out) => {
-            let mut seen = std::collections::BTreeSet::new();
-            let mut total = 0usize;
-            for (w, vs) in out {
-                total += vs.len();
-                if !seen.insert(*w) {
-                    cx.oracle_fail(i, "gbw-duplicate-group", format!("window [{},{}) appears twice", w.0, w.1));
-                    break;
-                }
-                if vs.is_empty() {
-                    cx.oracle_fail(i, "gbw-empty-group", format!("window [{},{}) has no element", w.0, w.1));
-                    break;
-                }
-                if w.1 < w.0 || w.1 - w.0 != size || size == 0 || (w.0 as i128 - off as i128).rem_euclid(size as i128) != 0 {
-                    cx.oracle_fail(i, "gbw-window-wrong", format!("group window [{},{}) is not offset+k*size long size", w.0, w.1));
-                    break;
-                }
-                let want = sorted(rows.iter().filter(|(t, _)| w.0 <= *t && *t < w.1).map(|x| x.1).collect());
-                if sorted(vs.clone()) != want {
-                    cx.oracle_fail(i, "gbw-group-content", format!("window [{},{}): got {:?}, elements with ts inside: {:?}", w.0, w.1, sorted(vs.clone()), want));
-                    break;
-                }
+    let i = cx.case(format!("WGROUP gbw {size} {off} {} {} {}", mode.enc(eff), src.enc(), enc_rows(rows)), ans, rows.len() >= 2 && r.is_ok());
+    cx.count(&format!("wgroup:gbw:{}", r.tag()));
+    fail_oracle(cx, i, "gbw", &r, repr, size);
+    if let Out::Ok(out) = &r {
+        let mut seen = std::collections::BTreeSet::new();
+        let mut total = 0usize;
+        let mut complete = true; // false = an earlier clause already failed and the walk stopped
+        for (w, vs) in out {
+            total += vs.len();
+            complete = false;
+            if !seen.insert(*w) {
+                cx.oracle_fail(i, "gbw-duplicate-group", format!("window [{},{}) appears twice", w.0, w.1));
+                break;
             }
-            if total != rows.len() {
-                cx.oracle_fail(i, "gbw-lost-or-duplicated", format!("{} elements in, {} in groups", rows.len(), total));
+            if vs.is_empty() {
+                cx.oracle_fail(i, "gbw-empty-group", format!("window [{},{}) has no element", w.0, w.1));
+                break;
             }
-            if let Some(s) = seq_ref {
-                if s != ans {
-                    cx.oracle_fail(i, "gbw-par-differs-from-seq", format!("seq: {s}  par: {ans}"));
-                }
+            if w.1 < w.0 || w.1 - w.0 != size || size == 0 || (w.0 as i128 - off as i128).rem_euclid(size as i128) != 0 {
+                cx.oracle_fail(i, "gbw-window-wrong", format!("group window [{},{}) is not offset+k*size long size", w.0, w.1));
+                break;
             }
+            let want = sorted(rows.iter().filter(|(t, _)| w.0 <= *t && *t < w.1).map(|x| x.1).collect());
+            if sorted(vs.clone()) != want {
+                cx.oracle_fail(i, "gbw-group-content", format!("window [{},{}): got {:?}, elements with ts inside: {:?}", w.0, w.1, sorted(vs.clone()), want));
+                break;
+            }
+            complete = true;
         }
-        Err(m) => {
-            if repr && size >= 1 {
-                cx.oracle_fail(i, "gbw-panics-though-windows-representable", m.clone());
-            }
-            if let Some(s) = seq_ref {
-                if s != ans { cx.oracle_fail(i, "gbw-par-differs-from-seq", format!("seq: {s}  par: {ans}")); }
-            }
+        if complete && total != rows.len() {
+            cx.oracle_fail(i, "gbw-lost-or-duplicated", format!("{} elements in, {} in groups", rows.len(), total));
         }
     }
-    ans
+    if let Some(s) = seq_ref {
+        if s != canon {
+            cx.oracle_fail(i, "gbw-par-differs-from-seq", format!("seq: {s}  par: {canon}"));
+        }
+    }
+    canon
 }
 
-fn one_keyed(cx: &mut Ctx, pools: &mut Pools, rows: &[KRow], size: u64, off: u64, mode: Mode, seq_ref: Option<&str>) -> String {
+fn one_keyed(cx: &mut Ctx, pools: &mut Pools, rows: &[KRow], size: u64, off: u64, mode: Mode, eff: usize, seq_ref: Option<&str>) -> String {
     let repr = all_representable(rows.iter().map(|r| r.1), size, off);
     // ---- keyed key_by_window
     let r = real_kkbw(pools, rows, size, off, mode);
     let ans = match &r {
-        Ok(out) => format!("OK {}", join_or_dash(out.iter().map(|((k, (s, e)), v)| format!("{k}@{s}-{e}:{v}")).collect())),
-        Err(_) => "PANIC".into(),
+        Out::Ok(out) => format!("OK {}", join_or_dash(out.iter().map(|((k, (s, e)), v)| format!("{k}@{s}-{e}:{v}")).collect())),
+        o => fail_ans(o),
     };
-    let i = cx.case(format!("WGROUP kkbw {size} {off} {} d {}", mode.enc(), enc_krows(rows)), ans, rows.len() >= 2 && r.is_ok());
-    cx.count(if r.is_ok() { "wgroup:kkbw:ok" } else { "wgroup:kkbw:panic" });
-    match &r {
-        Ok(out) => {
-            if out.len() != rows.len() {
-                cx.oracle_fail(i, "kkbw-row-count", format!("{} rows in, {} out", rows.len(), out.len()));
-            } else {
-                for (j, (((k, w), v), (k0, t, v0))) in out.iter().zip(rows.iter()).enumerate() {
-                    if v != v0 || k != k0 {
-                        cx.oracle_fail(i, "kkbw-key-or-value-changed", format!("row {j}: ({k0},{v0}) became ({k},{v})"));
-                        break;
-                    }
-                    if let Err(why) = window_ok(*w, *t, size, off) {
-                        cx.oracle_fail(i, &format!("kkbw-window-wrong:{why}"), format!("row {j}: ts {t} got [{},{})", w.0, w.1));
-                        break;
-                    }
+    let i = cx.case(format!("WGROUP kkbw {size} {off} {} d {}", mode.enc(eff), enc_krows(rows)), ans, rows.len() >= 2 && r.is_ok());
+    cx.count(&format!("wgroup:kkbw:{}", r.tag()));
+    fail_oracle(cx, i, "kkbw", &r, repr, size);
+    if let Out::Ok(out) = &r {
+        if out.len() != rows.len() {
+            cx.oracle_fail(i, "kkbw-row-count", format!("{} rows in, {} out", rows.len(), out.len()));
+        } else {
+            for (j, (((k, w), v), (k0, t, v0))) in out.iter().zip(rows.iter()).enumerate() {
+                if v != v0 || k != k0 {
+                    cx.oracle_fail(i, "kkbw-key-or-value-changed", format!("row {j}: ({k0},{v0}) became ({k},{v})"));
+                    break;
+                }
+                if let Err(why) = window_ok(*w, *t, size, off) {
+                    cx.oracle_fail(i, &format!("kkbw-window-wrong:{why}"), format!("row {j}: ts {t} got [{},{})", w.0, w.1));
+                    break;
                 }
             }
         }
-        Err(m) => if repr && size >= 1 {
-            cx.oracle_fail(i, "kkbw-panics-though-windows-representable", m.clone());
-        },
     }
     // ---- group_by_key_and_window
     let r = real_gbkw(pools, rows, size, off, mode);
-    let ans = match &r {
-        Ok(out) => {
-            let mut g: Vec<KWGroup> = out.iter().map(|(kw, vs)| (*kw, sorted(vs.clone()))).collect();
-            g.sort();
-            format!("OK {}", join_or_dash(g.iter().map(|((k, (s, e)), vs)| format!("{k}@{s}-{e}:{}", dots(vs))).collect()))
+    let (ans, canon) = match &r {
+        Out::Ok(out) => {
+            let mut g: Vec<KWGroup> = out.clone();
+            g.sort_by_key(|x| x.0);
+            let a = format!("OK {}", join_or_dash(g.iter().map(|((k, (s, e)), vs)| format!("{k}@{s}-{e}:{}", dots(vs))).collect()));
+            let mut c: Vec<KWGroup> = out.iter().map(|(kw, vs)| (*kw, sorted(vs.clone()))).collect();
+            c.sort();
+            (a, format!("OK {}", join_or_dash(c.iter().map(|((k, (s, e)), vs)| format!("{k}@{s}-{e}:{}", dots(vs))).collect())))
         }
-        Err(_) => "PANIC".into(),
+        o => (fail_ans(o), fail_ans(o)),
     };
-    let i = cx.case(format!("WGROUP gbkw {size} {off} {} d {}", mode.enc(), enc_krows(rows)), ans.clone(), rows.len() >= 2 && r.is_ok());
-    cx.count(if r.is_ok() { "wgroup:gbkw:ok" } else { "wgroup:gbkw:panic" });
-    match &r {
-        Ok(out) => {
-            let mut seen = std::collections::BTreeSet::new();
-            let mut total = 0usize;
-            for ((k, w), vs) in out {
-                total += vs.len();
-                if !seen.insert((*k, *w)) {
-                    cx.oracle_fail(i, "gbkw-duplicate-group", format!("key {k} window [{},{}) appears twice", w.0, w.1));
-                    break;
-                }
-                if vs.is_empty() {
-                    cx.oracle_fail(i, "gbkw-empty-group", format!("key {k} window [{},{}) has no element", w.0, w.1));
-                    break;
-                }
-                if w.1 < w.0 || w.1 - w.0 != size || size == 0 || (w.0 as i128 - off as i128).rem_euclid(size as i128) != 0 {
-                    cx.oracle_fail(i, "gbkw-window-wrong", format!("group window [{},{}) is not offset+k*size long size", w.0, w.1));
-                    break;
-                }
-                let want = sorted(rows.iter().filter(|(k0, t, _)| k0 == k && w.0 <= *t && *t < w.1).map(|x| x.2).collect());
-                if sorted(vs.clone()) != want {
-                    cx.oracle_fail(i, "gbkw-group-content", format!("key {k} window [{},{}): got {:?}, elements of that key with ts inside: {:?}", w.0, w.1, sorted(vs.clone()), want));
-                    break;
-                }
+    let i = cx.case(format!("WGROUP gbkw {size} {off} {} d {}", mode.enc(eff), enc_krows(rows)), ans, rows.len() >= 2 && r.is_ok());
+    cx.count(&format!("wgroup:gbkw:{}", r.tag()));
+    fail_oracle(cx, i, "gbkw", &r, repr, size);
+    if let Out::Ok(out) = &r {
+        let mut seen = std::collections::BTreeSet::new();
+        let mut total = 0usize;
+        let mut complete = true;
+        for ((k, w), vs) in out {
+            total += vs.len();
+            complete = false;
+            if !seen.insert((*k, *w)) {
+                cx.oracle_fail(i, "gbkw-duplicate-group", format!("key {k} window [{},{}) appears twice", w.0, w.1));
+                break;
             }
-            if total != rows.len() {
-                cx.oracle_fail(i, "gbkw-lost-or-duplicated", format!("{} elements in, {} in groups", rows.len(), total));
+            if vs.is_empty() {
+                cx.oracle_fail(i, "gbkw-empty-group", format!("key {k} window [{},{}) has no element", w.0, w.1));
+                break;
             }
-            if let Some(s) = seq_ref {
-                if s != ans { cx.oracle_fail(i, "gbkw-par-differs-from-seq", format!("seq: {s}  par: {ans}")); }
+            if w.1 < w.0 || w.1 - w.0 != size || size == 0 || (w.0 as i128 - off as i128).rem_euclid(size as i128) != 0 {
+                cx.oracle_fail(i, "gbkw-window-wrong", format!("group window [{},{}) is not offset+k*size long size", w.0, w.1));
+                break;
             }
+            let want = sorted(rows.iter().filter(|(k0, t, _)| k0 == k && w.0 <= *t && *t < w.1).map(|x| x.2).collect());
+            if sorted(vs.clone()) != want {
+                cx.oracle_fail(i, "gbkw-group-content", format!("key {k} window [{},{}): got {:?}, elements of that key with ts inside: {:?}", w.0, w.1, sorted(vs.clone()), want));
+                break;
+            }
+            complete = true;
         }
-        Err(m) => {
-            if repr && size >= 1 {
-                cx.oracle_fail(i, "gbkw-panics-though-windows-representable", m.clone());
-            }
-            if let Some(s) = seq_ref {
-                if s != ans { cx.oracle_fail(i, "gbkw-par-differs-from-seq", format!("seq: {s}  par: {ans}")); }
-            }
+        if complete && total != rows.len() {
+            cx.oracle_fail(i, "gbkw-lost-or-duplicated", format!("{} elements in, {} in groups", rows.len(), total));
         }
     }
-    ans
+    if let Some(s) = seq_ref {
+        if s != canon { cx.oracle_fail(i, "gbkw-par-differs-from-seq", format!("seq: {s}  par: {canon}")); }
+    }
+    canon
 }
 
 /// one input through seq and several (threads, partitions) pairs, unkeyed and keyed
-fn wgroup_all_modes(cx: &mut Ctx, pools: &mut Pools, krows: &[KRow], size: u64, off: u64, pars: &[(usize, usize)]) {
+fn wgroup_all_modes(cx: &mut Ctx, pools: &mut Pools, krows: &[KRow], size: u64, off: u64, pars: &[(usize, Option<usize>)]) {
     let rows: Vec<Row> = krows.iter().map(|(_, t, v)| (*t, *v)).collect();
     // the way the timestamped collection is built is part of the case (drawn from the one PRNG)
     let src = *cx.rng.pick(&[Src::D, Src::D, Src::T, Src::A]);
-    let s_un = one_unkeyed(cx, pools, &rows, size, off, Mode::Seq, src, None);
-    let s_k = one_keyed(cx, pools, krows, size, off, Mode::Seq, None);
+    let eff = if pars.iter().any(|(_, p)| p.is_none()) { effective_default_partitions(&rows) } else { 0 };
+    let s_un = one_unkeyed(cx, pools, &rows, size, off, Mode::Seq, eff, src, None);
+    let s_k = one_keyed(cx, pools, krows, size, off, Mode::Seq, eff, None);
     for (t, p) in pars {
-        one_unkeyed(cx, pools, &rows, size, off, Mode::Par(*t, *p), src, Some(&s_un));
-        one_keyed(cx, pools, krows, size, off, Mode::Par(*t, *p), Some(&s_k));
-        cx.count(&format!("wgroup:partitions={}", if *p > krows.len() { ">len".to_string() } else if *p == krows.len() { "=len".to_string() } else { if *p >= 9 { "9+".to_string() } else { p.to_string() } }));
+        one_unkeyed(cx, pools, &rows, size, off, Mode::Par(*t, *p), eff, src, Some(&s_un));
+        one_keyed(cx, pools, krows, size, off, Mode::Par(*t, *p), eff, Some(&s_k));
+        cx.count(&format!("wgroup:partitions={}", match p {
+            None => format!("None(eff={eff})"),
+            Some(0) => "Some(0)".to_string(),
+            Some(p) if *p > krows.len() => ">len".to_string(),
+            Some(p) if *p == krows.len() => "=len".to_string(),
+            Some(p) if *p >= 9 => "9+".to_string(),
+            Some(p) => p.to_string(),
+        }));
         cx.count(&format!("wgroup:threads={t}"));
     }
     cx.count(&format!("wgroup:len={}", match krows.len() { 0 => "0", 1 => "1", 2..=4 => "2-4", 5..=16 => "5-16", _ => ">16" }));
+    cx.count(if size >= 1 << 40 { "wgroup:size>=2^40" } else { "wgroup:size<2^40" });
 }
 
 fn all_seqs<T: Clone>(alpha: &[T], max_len: usize) -> Vec<Vec<T>> {
@@ -436,9 +535,20 @@ pub fn run(cx: &mut Ctx) {
     ] {
         one_tumble(cx, ts, size, off, "corpus");
     }
-    wgroup_all_modes(cx, &mut pools, &[(1, 7, 70), (1, 27, 71), (2, 12, 72), (1, 8, 73)], 10, 25, &[(2, 2), (2, 4)]);
-    wgroup_all_modes(cx, &mut pools, &[(1, 1_000, 1), (1, 9_000, 2), (2, 11_000, 3)], 10_000, 0, &[(2, 2)]);
-    wgroup_all_modes(cx, &mut pools, &[(1, 3, 1), (1, 30, 2)], 10, 5, &[(2, 2)]); // first row has no window → PANIC
+    for &(ts, size, off) in &[
+        (7u64, 10u64, 25u64), // checked legacy panics, release legacy returns [2^64-1, 9), current returns [5,15) in both builds
+        (3, 10, 5), (27, 10, 5), (0, 10, 10), (9, 10, 10), (MAX, 1, 0), (MAX - 1, 1, 0), (MAX - 10, 10, 6), (MAX - 1, MAX, MAX - 1),
+        (5, 0, 0), (5, 0, 3), (100, 10, MAX), (MAX - 3, 10, MAX), (1 << 63, 3, 1 << 62),
+    ] {
+        one_tumble_variants(cx, ts, size, off);
+    }
+    wgroup_all_modes(cx, &mut pools, &[(1, 7, 70), (1, 27, 71), (2, 12, 72), (1, 8, 73)], 10, 25, &[(2, Some(2)), (2, Some(4)), (2, None), (2, Some(0))]);
+    wgroup_all_modes(cx, &mut pools, &[(1, 1_000, 1), (1, 9_000, 2), (2, 11_000, 3)], 10_000, 0, &[(2, Some(2)), (1, None)]);
+    wgroup_all_modes(cx, &mut pools, &[(1, 3, 1), (1, 30, 2)], 10, 5, &[(2, Some(2)), (2, Some(0))]); // first row has no window → PANIC
+    // 64-bit magnitudes: huge window size, events on both sides of a boundary / below the phase / at the top
+    wgroup_all_modes(cx, &mut pools, &[(1, 1 << 63, 1), (2, (1 << 63) - 1, 2), (1, 5, 3), (1, (1 << 63) + 7, 1)], 1 << 63, 0, &[(2, Some(3)), (2, None)]);
+    wgroup_all_modes(cx, &mut pools, &[(1, 1 << 62, 1), (1, 99, 2)], 1 << 62, 100, &[(2, Some(2))]); // 99 < off % size → PANIC
+    wgroup_all_modes(cx, &mut pools, &[(1, MAX - 1, 1), (1, 3, 2)], MAX / 2, 3, &[(2, Some(2))]);     // end beyond 2^64 → PANIC
 
     // ---------------- (2) small-scope exhaustive
     let (tmax, smax) = (cx.budget(40, 64) as u64, cx.budget(12, 16) as u64);
@@ -452,6 +562,17 @@ pub fn run(cx: &mut Ctx) {
         }
     }
     cx.exhaustive_blocks.push(format!("TUMBLE: all ts, off in 0..={tmax}, size in 1..={smax} ({n} triples)"));
+    let (tmax, smax) = (cx.budget(20, 32) as u64, cx.budget(7, 10) as u64);
+    let mut n = 0u64;
+    for size in 0..=smax {
+        for off in 0..=tmax {
+            for ts in 0..=tmax {
+                one_tumble_variants(cx, ts, size, off);
+                n += 1;
+            }
+        }
+    }
+    cx.exhaustive_blocks.push(format!("TUMBLE-WRAP / TUMBLE-LEGACY / TUMBLE-LEGACY-WRAP: all ts, off in 0..={tmax}, size in 0..={smax} ({n} triples)"));
     // Window Eq/Ord/Hash: all pairs of windows over 4 field values
     let vals = [0u64, 1, 10, MAX];
     let mut n = 0u64;
@@ -468,17 +589,19 @@ pub fn run(cx: &mut Ctx) {
         for &off in &offs {
             for ts in MAX - 2 * size - 2..=MAX {
                 one_tumble(cx, ts, size, off, "exh-top");
+                one_tumble_variants(cx, ts, size, off);
                 n += 1;
             }
         }
     }
-    cx.exhaustive_blocks.push(format!("TUMBLE: all ts in 2^64-2*size-3..2^64, size in 0..=6, off in 0..=size+1 and 2^64-size-2..2^64 ({n} triples)"));
+    cx.exhaustive_blocks.push(format!("TUMBLE + the three build variants: all ts in 2^64-2*size-3..2^64, size in 0..=6, off in 0..=size+1 and 2^64-size-2..2^64 ({n} triples)"));
     // WGROUP: all keyed row sequences of length <= L over keys {0,1} × ts {3,7,12,17} (value = position tag),
     // size 5/10, off in {0, 2, 7, 25}, seq + partitions 1..=L+1
     let l = cx.budget(3, 4);
     let alpha: Vec<(i64, u64)> = vec![(0, 3), (0, 7), (1, 7), (0, 12), (1, 17)];
     let seqs = all_seqs(&alpha, l);
-    let pars: Vec<(usize, usize)> = (1..=l + 1).map(|p| (2usize, p)).collect();
+    let mut pars: Vec<(usize, Option<usize>)> = (0..=l + 1).map(|p| (2usize, Some(p))).collect();
+    pars.push((2, None));
     let mut n = 0u64;
     for s in &seqs {
         let krows: Vec<KRow> = s.iter().enumerate().map(|(j, (k, t))| (*k, *t, (j as i64) % 2)).collect();
@@ -487,13 +610,18 @@ pub fn run(cx: &mut Ctx) {
             n += 1;
         }
     }
-    cx.exhaustive_blocks.push(format!("WGROUP: all keyed event sequences of length <= {l} over 5 (key,ts) symbols x (size,off) in {{(5,0),(5,2),(10,7),(5,25)}} x seq + partitions 1..={} ({n} inputs, 4 ops each)", l + 1));
+    cx.exhaustive_blocks.push(format!("WGROUP: all keyed event sequences of length <= {l} over 5 (key,ts) symbols x (size,off) in {{(5,0),(5,2),(10,7),(5,25)}} x seq + partitions Some(0)..=Some({}) and None ({n} inputs, 4 ops each)", l + 1));
 
     // ---------------- (3) random
     let rounds = cx.budget(60_000, 1_500_000);
     for _ in 0..rounds {
         let (ts, size, off, tag) = gen_tumble(cx);
         one_tumble(cx, ts, size, off, tag);
+    }
+    let rounds = cx.budget(12_000, 250_000);
+    for _ in 0..rounds {
+        let (ts, size, off, _) = gen_tumble(cx);
+        one_tumble_variants(cx, ts, size, off);
     }
     let rounds = cx.budget(2000, 40_000);
     for _ in 0..rounds {
@@ -505,7 +633,7 @@ pub fn run(cx: &mut Ctx) {
     for _ in 0..rounds {
         let (krows, size, off) = gen_events(cx);
         let len = krows.len();
-        let mut cand = vec![1usize, 2, 3, len.saturating_sub(1).max(1), len.max(1), len + 1, 7, 64];
+        let mut cand = vec![Some(1usize), Some(2), Some(3), Some(len.saturating_sub(1).max(1)), Some(len.max(1)), Some(len + 1), Some(7), Some(64), Some(0), None];
         let np = cx.budget(2, 3);
         let mut pars = vec![];
         for _ in 0..np {
@@ -531,12 +659,20 @@ fn gen_tumble(cx: &mut Ctx) -> (u64, u64, u64, &'static str) {
             let off = match cx.rng.below(3) { 0 => 0, 1 => cx.rng.next_u64() % size, _ => cx.rng.next_u64() % (4 * size) };
             (ts, size, off, "epoch")
         }
-        2 => { // ts on a window boundary ±1
-            let size = small(cx);
-            let off = cx.rng.next_u64() % (3 * size);
-            let k = cx.rng.next_u64() % 1_000_000;
-            let b = (off % size).wrapping_add(k.wrapping_mul(size));
+        2 => { // ts on a window boundary ±1, sizes and phases of every magnitude; ~10 % on the LOWEST boundary (k = 0):
+               // ts = off % size − 1 has no window (start would be negative), ts = off % size is the first instant that has one
+            let size = match cx.rng.below(3) { 0 => small(cx), 1 => (cx.rng.next_u64() >> cx.rng.below(63)).max(2), _ => (cx.rng.next_u64() >> cx.rng.below(8)).max(2) };
+            let off = match cx.rng.below(3) { 0 => cx.rng.next_u64() % size, 1 => cx.rng.next_u64(), _ => cx.rng.next_u64() % size.saturating_mul(3) };
+            let kmax = ((MAX - off % size) / size).min(1_000_000);
+            let k = if cx.rng.chance(1, 10) { 0 } else if cx.rng.chance(1, 10) { kmax } else { cx.rng.next_u64() % (kmax + 1) };
+            let b = off % size + k * size; // ≤ MAX by the choice of kmax
             let ts = match cx.rng.below(3) { 0 => b.wrapping_sub(1), 1 => b, _ => b.wrapping_add(1) };
+            if k == 0 {
+                cx.count("tumble:boundary:k=0");
+                if off % size >= 1 << 32 {
+                    cx.count(if ts == b { "tumble:boundary:k=0:64bit:ts=phase" } else if ts == b.wrapping_sub(1) { "tumble:boundary:k=0:64bit:ts=phase-1" } else { "tumble:boundary:k=0:64bit:ts=phase+1" });
+                }
+            }
             (ts, size, off, "boundary")
         }
         3 => { // ts below the offset
@@ -583,16 +719,24 @@ fn gen_tumble(cx: &mut Ctx) -> (u64, u64, u64, &'static str) {
 fn gen_events(cx: &mut Ctx) -> (Vec<KRow>, u64, u64) {
     const MAX: u64 = u64::MAX;
     let len = match cx.rng.below(8) { 0 => 0, 1 => 1, 2 => 2, 3 | 4 => 3 + cx.rng.below(8), _ => 8 + cx.rng.below(40) };
-    let size: u64 = match cx.rng.below(5) { 0 => 1, 1 => 1 + cx.rng.below(12) as u64, 2 => 10, 3 => 1_000 * (1 + cx.rng.below(60) as u64), _ => 1 + cx.rng.next_u64() % 1_000_000 };
-    let off: u64 = match cx.rng.below(5) { 0 => 0, 1 => cx.rng.next_u64() % size, 2 => size * (1 + cx.rng.below(4) as u64) + cx.rng.next_u64() % size, 3 => cx.rng.next_u64() % (20 * size), _ => size };
+    // 1 in 8: a huge window size (2^40 .. 2^63): few windows fit below 2^64, the phase is a 64-bit number
+    let huge = cx.rng.chance(1, 8);
+    let size: u64 = if huge { ((1u64 << 63) >> cx.rng.below(24)) + cx.rng.next_u64() % (1 << 40) }
+        else { match cx.rng.below(5) { 0 => 1, 1 => 1 + cx.rng.below(12) as u64, 2 => 10, 3 => 1_000 * (1 + cx.rng.below(60) as u64), _ => 1 + cx.rng.next_u64() % 1_000_000 } };
+    let off: u64 = match cx.rng.below(5) { 0 => 0, 1 => cx.rng.next_u64() % size, 2 => size.saturating_mul(1 + cx.rng.below(4) as u64).saturating_add(cx.rng.next_u64() % size), 3 => cx.rng.next_u64() % size.saturating_mul(20), _ => size };
     // base so that most event sets are fully representable; a minority has an event below off % size
     // or close to 2^64 (those runs must panic, in every mode)
+    let fit = (MAX - off % size) / size; // number of whole windows between the phase and 2^64 - 1 (≥ 1 for huge sizes ≤ 2^63)
     let (base, span) = match cx.rng.below(12) {
-        0 => (0u64, 3 * size),                       // may include ts < off % size
-        1 => (MAX - 4 * size, 4 * size),             // may include unrepresentable ends
-        2 => (off.saturating_sub(2 * size), 5 * size), // around the offset, ts < off
-        3 => (off % size, 6 * size),
-        _ => (off % size + size * (cx.rng.next_u64() % 1_000_000), size * (1 + cx.rng.below(6) as u64)),
+        0 => (0u64, size.saturating_mul(3)),                       // may include ts < off % size
+        1 => (MAX.saturating_sub(size.saturating_mul(4)), size.saturating_mul(4)), // may include unrepresentable ends
+        2 => (off.saturating_sub(size.saturating_mul(2)), size.saturating_mul(5)), // around the offset, ts < off
+        3 => (off % size, size.saturating_mul(6)),
+        _ => {
+            let k = cx.rng.next_u64() % fit.clamp(1, 1_000_000);
+            let w = (1 + cx.rng.below(6) as u64).min((fit - k).max(1));
+            (off % size + size * k, size.saturating_mul(w).min(MAX - (off % size + size * k)).saturating_sub(1))
+        }
     };
     let nkeys = 1 + cx.rng.below(4) as i64;
     let skew = cx.rng.chance(1, 3);
@@ -601,7 +745,7 @@ fn gen_events(cx: &mut Ctx) -> (Vec<KRow>, u64, u64) {
         let ts = match cx.rng.below(6) {
             0 => base.saturating_add((cx.rng.next_u64() % (span / size + 1)).saturating_mul(size)), // on a boundary
             1 => base.saturating_add((cx.rng.next_u64() % (span / size + 1)).saturating_mul(size)).saturating_sub(1),
-            _ => base.saturating_add(cx.rng.next_u64() % (span + 1)),
+            _ => base.saturating_add(match span.checked_add(1) { Some(m) => cx.rng.next_u64() % m, None => cx.rng.next_u64() }),
         };
         let key = if skew && cx.rng.chance(3, 4) { 0 } else { cx.rng.range(0, nkeys - 1) };
         // values: few distinct (duplicates matter for "none lost or duplicated"), sometimes unique tags
